@@ -62,6 +62,19 @@ def coherent(r):
     return ""
 
 
+def fill_caches(*values):
+    """fill the memo caches of FmtStr values (and of their runs) the way a program that already displayed them would"""
+    for f in values:
+        if isinstance(f, FmtStr):
+            try:
+                str(f), len(f), f.s, hash(f), repr(f)
+                f.width
+            except Exception:
+                pass
+        elif isinstance(f, (list, tuple)):
+            fill_caches(*f)
+
+
 class Suite:
     def __init__(self, check, name, rule, bound="", exhaustive=True, max_reports=8):
         self.check, self.name, self.rule, self.bound, self.exhaustive = check, name, rule, bound, exhaustive
@@ -95,6 +108,8 @@ class Suite:
         """evaluate a sidecar contract at run time on the real function"""
         desc = {k: describe(v) for k, v in args.items()}
         self.case(key if key is not None else tuple(sorted(desc.items())), nontrivial, sample=desc)
+        if self.evaluations % 2 == 0:
+            fill_caches(*args.values())      # every other case: operands that were already rendered / measured (caches filled)
         try:
             ok, clause, detail = check_concrete(contract, args)
         except Exception as e:
